@@ -246,6 +246,9 @@ def faults(model, cfg, facts):
             'all+rem': ['ALL', 'REMAINING'], 'all+all': ['ALL', 'ALL'], 'none+none': ['NONE', 'NONE'],
             'rem+rem': ['REMAINING', 'REMAINING'],
             'empty-set': [[], 'REMAINING'], 'empty-set2': ['REMAINING', []], 'empty-name': [[''], 'REMAINING'],
+            # SIZE: long unknown names, with characters that cannot be part of a name at the end
+            'unknown-long': [['heaterElementTemperatureControlLoop, led'], 'REMAINING'],
+            'unknown-very-long': ['REMAINING', ['x' * 60 + '!', 'zz' * 100]],
         }
         if names:
             variants['empty-name+real'] = ['REMAINING', ['', names[0]]]
@@ -327,6 +330,9 @@ def faults(model, cfg, facts):
         yield name, m, c
 
 
+_HUNG = set()
+
+
 def work(job):
     idx, nslots, k = job
     part = Partial()
@@ -340,7 +346,11 @@ def work(job):
         for name, m2, c2 in faults(model, cfg, facts):
             cases.append({'model': m2, 'cfg': c2, 'fault': name, 'point': pid})
         for case in cases:
+            if case['fault'] in _HUNG:
+                continue        # this fault already made a build hang in this worker: reported once, not 2000 times
             res = judge(case)
+            if any(k == 'hang' or k.startswith('hang') for k, _w in res):
+                _HUNG.add(case['fault'])
             want = reference_validity(case['model'], case['cfg'])
             part.evaluations += 1
             part.states += 1
